@@ -4,6 +4,7 @@ import (
 	"encoding/json"
 	"fmt"
 	"math/rand"
+	"os"
 	"strings"
 	"sync"
 	"time"
@@ -18,7 +19,7 @@ import (
 
 type c15Params struct {
 	Fault       string         `json:"fault"`                  // none ahead load seqno seqno-omit failover open reopen reopen-during-open badmeta badmember badfile
-	FileContent string         `json:"file_content,omitempty"` // badfile: empty | half | garbage (what is left of the checkpoint file)
+	FileContent string         `json:"file_content,omitempty"` // badfile: empty | half | garbage | dir (what is found at the checkpoint file's path)
 	NumVB       int            `json:"num_vb"`
 	Nodes       int            `json:"nodes"`
 	VBs         []int          `json:"vbs,omitempty"` // affected vBuckets
@@ -123,14 +124,14 @@ func init() {
 					add(c15Params{Fault: "reopen-during-open", NumVB: 2 + rng.Intn(3), Nodes: 1, ExpectStart: true}, 60)
 				}
 				// a checkpoint file that exists but cannot be read as checkpoints (truncated to nothing, cut in the middle, garbage)
-				fc := []string{"empty", "half", "garbage"}
+				fc := []string{"empty", "half", "garbage", "dir"}
 				for k := 0; k < 2; k++ {
 					n := 2 + rng.Intn(3)
 					st := map[int]uint64{}
 					for vb := 0; vb < n; vb++ {
 						st[vb] = uint64(1 + rng.Intn(15))
 					}
-					add(c15Params{Fault: "badfile", NumVB: n, Nodes: 1, Backend: "file", Stored: st, FileContent: fc[(r*2+k)%3], AutoReset: []string{"", "latest"}[rng.Intn(2)]}, 60)
+					add(c15Params{Fault: "badfile", NumVB: n, Nodes: 1, Backend: "file", Stored: st, FileContent: fc[(r*2+k)%4], AutoReset: []string{"", "latest"}[rng.Intn(2)]}, 60)
 				}
 				add(c15Params{Fault: "badmeta", NumVB: 2, Nodes: 1}, 60)
 				add(c15Params{Fault: "badmember", NumVB: 2, Nodes: 1}, 60)
@@ -250,7 +251,11 @@ func runC15(sc drv.Scenario) drv.Result {
 		case "garbage":
 			b = []byte("\x00\x01not json at all\n")
 		}
-		writeFile(path, b)
+		if p.FileContent == "dir" {
+			_ = os.Mkdir(path, 0o755) // the path exists but cannot be read as a file (EISDIR)
+		} else {
+			writeFile(path, b)
+		}
 		defer removeFile(path)
 		cfg.Metadata.Type = "file"
 		cfg.Metadata.Config = map[string]string{"fileName": path}
